@@ -50,18 +50,18 @@ CLAIMS = {
             "naming of versions by content hash and immutability of stored objects rest on the assumed mast/MakeRoot contract; s3db_version (no name for uncommitted changes), Roots and OpenKV glue are under contract", "DESIGN §6 C11"),
     "C12": ("the two ends of a diff: kv.Open on a named version list (including the empty list = empty version) reads exactly those versions strictly, with no LIST and no write; ChangesCursor.Next: every delivered row is visible in the target version, no live entry is skipped, the end is reported only at the real end, a failed step is an error (two genuine defects found and fixed); s3db_changes xConnect: from/to reach their own side, never panics (genuine defect fixed)",
             "that mast's diff sequence is the set difference of the two trees is an assumed contract (trusted/mast.contracts), compared with the real dependency by a bounded conformance run", "DESIGN §6 C12"),
-    "C14": ("error propagation contracts: every function under contract returns an error or its full postcondition on every path (scan stepping, statements, commit, open/merge, listing, loading), no nil dereference, index or type-assertion panic for any input; "
+    "C14": ("errdrop obligations: wherever a function under contract returns a nil error or a loop goes round again, no error a callee reported on the way was swallowed (errors tolerated by design are named in the contract with the reason, several only under a condition such as nosuchkey(e)); an acknowledged commit means the version object was published; error propagation contracts: every function under contract returns an error or its full postcondition on every path (scan stepping, statements, commit, open/merge, listing, loading), no nil dereference, index or type-assertion panic for any input; "
             "failed commit retires nothing; strict opens never skip",
             "hangs, wall-clock bounds and dependency internals are outside contracts; ChangesCursor, Vacuum, OpenKV and the module glue (xConnect/xCreate/xDisconnect/xOpen, s3db_conn, s3db_changes) are under the same no-panic / error-or-full-post contracts", "DESIGN §6 C14"),
     "C09": ("vacuum: only rows that are already invisible (deleted) are turned into tombstones; history is deleted only after the purged tree was committed; a version is offered for deletion only if ALL its successors were created no later than the cutoff; "
             "only nodes the diff reported as removed are offered and no node of the handle's own tree is; the rows visible through the table are exactly what they were, whatever the outcome (functional postcondition over the tree); the version shown afterwards is the one whose nodes were protected; nodes are deleted before the versions that reference them; genuine defect found (vacuum deleted shared nodes of the current version: table read empty), replayed and fixed",
             "that mast DiffIter/DiffLinks visit every entry/node is an assumed clause (higher-order dependency); crash points are covered as ordering obligations only; known finding: with node_cache_entries > 0 the node cache keeps remembering deleted nodes as stored (empty table after a later vacuum)", "DESIGN §6 C09, §12"),
-    "C10": ("cutoff boundaries: row side strictly before the cutoff (call-site assertion in Vacuum), purge test in the RemoveTombstones callback (stamp != 0 and strictly before the cutoff, everything else untouched), version side every successor not after the cutoff",
-            "completeness of the version-side selection and idempotence of a repeated vacuum are not stated; iterator coverage assumed", "DESIGN §6 C10, §12"),
+    "C10": ("reclaiming is all or error: no failed DELETE is swallowed, version objects are deleted only after all their nodes, the protection pass passes a version over only if it is itself offered; cutoff boundaries: row side strictly before the cutoff (call-site assertion in Vacuum), purge test in the RemoveTombstones callback (stamp != 0 and strictly before the cutoff, everything else untouched), version side every successor not after the cutoff",
+            "idempotence of a repeated vacuum is not stated; iterator coverage assumed; KNOWN FINDING (3 errdrop obligations in getHistoricRootsAndNodes): a read fault while vacuum enumerates the nodes of a version it reclaims is logged and skipped, vacuum reports success and the nodes stay for good (replayed: 3 of 6 objects leaked after one transient GET error)", "DESIGN §6 C10, §12"),
     "C18": ("node encryption: every slice/array access of encrypt, decrypt and the legacy box path is in bounds for EVERY ciphertext (any length, truncated or not: error, never a panic); the ciphertext is a function of (key, plaintext) only (nonce = blake2b(plaintext||key): unchanged nodes deduplicate); "
-            "decrypt inverts encrypt for every plaintext and key as a lemma over the two verified contracts and the assumed seal/open law; the encryptor wraps the node store only (version objects use plain Persist objects)",
+            "decrypt inverts encrypt for every plaintext and key as a lemma over the two verified contracts and the assumed seal/open law; the encryptor wraps the node store only (version objects use plain Persist objects); V1NodeEncryptor yields a real encryptor keyed from the whole passphrase for EVERY passphrase and the configured encryptor is the one the node store uses; the legacy box path accepts nothing unless Poly1305 verified exactly this body against exactly this tag (ghost record set by the assumed contract of poly1305.Verify)",
             "confidentiality and authentication are properties of the assumed primitives (trusted/crypto.contracts) and are not decided; readability of legacy-format data is not expressible by a contract within reach: a bounded run on the real code (never counted as proved) stands in and reports a KNOWN FINDING (legacy boxes longer than 32 bytes decrypt to garbage without error)", "DESIGN §6 C18, §12"),
-    "C03": ("the per-request protocol obligations the interleaving argument rests on (DESIGN §12.5): a commit publishes its version only after a successful flush and retires parents only after publishing; a parent is copied to merged/ BEFORE it is deleted from current/ and the new version is never deleted; "
+    "C03": ("the per-request protocol obligations the interleaving argument rests on (DESIGN §12.5): a listing is complete (first request without token, every further request continues exactly the truncated page before it, it ends only at a page that is not truncated, every entry of every page is in the result); a commit publishes its version only after a successful flush and retires parents only after publishing; a parent is copied to merged/ BEFORE it is deleted from current/ and the new version is never deleted; "
             "an opener looks for every version it listed in BOTH places, skips a version only when an object is reported missing (never on a transport error) and never when versions were named; genuine defect found (an open racing with a commit showed an empty table), replayed with a request hook and fixed",
             "the property quantifies over all interleavings of k clients: the lift from these obligations to 'every opener sees every version committed before its open' is a pencil argument, not mechanised; liveness ('eventually contained') is not decided; assumes an atomic read-after-write object store and that other clients run the same code", "DESIGN §12.5"),
 }
